@@ -472,6 +472,9 @@ pub struct Faults {
     pub trunc_fault: Option<String>,
     /// Fail the k-th read of the OUTPUT file once: "0,<k>,<errno>".
     pub read_fault: Option<String>,
+    /// The server ends the body of request number n (>= 2: chunk data) after k bytes, once;
+    /// the clone runs with --http-retry-count 3.
+    pub cut: Option<(u64, usize)>,
     pub rlimit_fsize: Option<u64>,
     pub hook_delay: Option<String>,
     pub release: bool,
@@ -530,7 +533,12 @@ pub fn clone_spec(b: &Built, sc: &Scenario, archive: String) -> CloneSpec {
 /// Run the clone of a built scenario (output must have been prepared).
 pub fn run_clone(dir: &Path, b: &Built, sc: &Scenario, tag: &str, faults: &Faults) -> CloneObs {
     let server = if sc.http {
-        Some(Server::start(Arc::new(b.arch.bytes.clone()), pacing_script(&b.arch.model, faults.pacing, sc.src_seed)))
+        let inner = pacing_script(&b.arch.model, faults.pacing, sc.src_seed);
+        let script: httpd::Script = match faults.cut {
+            Some((n, k)) => Arc::new(move |req, f| if req.n == n { httpd::Action::CutAfter(k) } else { inner(req, f) }),
+            None => inner,
+        };
+        Some(Server::start(Arc::new(b.arch.bytes.clone()), script))
     } else {
         None
     };
@@ -539,6 +547,10 @@ pub fn run_clone(dir: &Path, b: &Built, sc: &Scenario, tag: &str, faults: &Fault
         None => proc::p(&b.arch.path),
     };
     let mut spec = clone_spec(b, sc, archive);
+    if faults.cut.is_some() {
+        spec.retries = Some(3);
+        spec.extra.retain(|a| a != "--http-retry-count" && a != "2");
+    }
     // One scenario in six delivers its first seed through a named pipe (`--seed <(...)`,
     // a device node: st_size 0, not seekable) instead of a regular file.
     let mut fifo_feeder: Option<(std::sync::Arc<std::sync::atomic::AtomicBool>, std::thread::JoinHandle<()>)> = None;
@@ -699,6 +711,40 @@ pub fn judge_final(b: &Built, sc: &Scenario, o: &CloneObs) -> Result<(), String>
 }
 
 /// C06 oracle over the server's Range log.
+/// Under a transfer fault with retries the same bytes may be asked for again, but never
+/// anything else: every requested byte belongs to the header or to a chunk that must be
+/// fetched.
+pub fn judge_requests_subset(b: &Built, o: &CloneObs) -> Result<(), String> {
+    let m = &b.arch.model;
+    let hdr_end = m.parsed.header_len as u64;
+    let mut allowed: Vec<(u64, u64)> = vec![(0, hdr_end - 1)];
+    for &(s, l) in &b.pred.fetch_ranges {
+        if l > 0 {
+            allowed.push((s, s + l as u64 - 1));
+        }
+    }
+    allowed.sort();
+    let mut merged: Vec<(u64, u64)> = Vec::new();
+    for (a, e) in allowed {
+        match merged.last_mut() {
+            Some(last) if a <= last.1 + 1 => last.1 = last.1.max(e),
+            _ => merged.push((a, e)),
+        }
+    }
+    for r in &o.requests {
+        let Some((a, e)) = r.req.range else {
+            return Err(format!("request {} without a Range header (whole archive requested)", r.req.n));
+        };
+        if !merged.iter().any(|(x, y)| *x <= a && e <= *y) {
+            return Err(format!(
+                "request #{} asks for bytes {}-{}, which are not all header or stored data of chunks that must be fetched (a resumed transfer must ask only for what is still missing)",
+                r.req.n, a, e
+            ));
+        }
+    }
+    Ok(())
+}
+
 pub fn judge_requests(b: &Built, o: &CloneObs) -> Result<(), String> {
     let m = &b.arch.model;
     let hdr_end = m.parsed.header_len as u64;
